@@ -11,6 +11,7 @@ theorem EStep.inner_len {s s' : St} (st : EStep s s') : s'.inner.length = s.inne
   cases st with
   | incReg => simp [St.incReg, St.mapFrames]
   | emit i _ _ _ _ => simp [St.push, St.mapFrames]
+  | branch i _ _ _ _ _ => simp [St.push, St.mapFrames]
   | incEmit i _ _ _ _ => simp [St.push, St.incReg, St.mapFrames]
   | addErr k v l o => rfl
   | declare n v i _ _ _ _ _ =>
